@@ -417,10 +417,29 @@ func runC16(c *Ctx) {
 			bad = ""
 			fi := c.P.Info(g)
 			for _, cl := range clears {
+				if _, isDefer := cl.(*ssa.Defer); isDefer || cl.Parent() != g {
+					bad = "the dial timer is cleared at " + c.Pos(cl) + " in a deferred / nested call, i.e. after the user's connect callback: a write deadline set inside the callback is wiped when it returns"
+					continue
+				}
 				for _, u := range user {
-					if _, isDefer := cl.(*ssa.Defer); isDefer || cl.Parent() != g || !fi.CanReach(cl, u) || fi.CanReach(u, cl) {
-						bad = "the dial timer is cleared at " + c.Pos(cl) + " after (or deferred past) the user's connect callback (" + c.Pos(u) + "): a write deadline set inside the callback is wiped when it returns"
+					if fi.CanReach(u, cl) {
+						bad = "the dial timer is cleared at " + c.Pos(cl) + " after the user's connect callback (" + c.Pos(u) + "): a write deadline set inside the callback is wiped when it returns"
 					}
+				}
+			}
+			for _, u := range user {
+				preceded := false
+				for _, cl := range clears {
+					if cl.Parent() == g && fi.CanReach(cl, u) {
+						preceded = true
+					}
+				}
+				// a callback site with no clear before it must be the failure report
+				if !preceded && u.Parent() == g && !fi.HasFact(u, func(ft ir.Fact) bool {
+					x, isNil, ok := ir.NilTest(ft.Cond, ft.Truth)
+					return ok && !isNil && x.Type().String() == "error"
+				}) {
+					bad = "the user's connect callback at " + c.Pos(u) + " can report success without the dial timer having been cleared first"
 				}
 			}
 		}
